@@ -3,6 +3,7 @@ import Martian.Generated.Shutdown
 import Martian.Props.C07.Faults
 import Martian.Props.C07.Tunnels
 import Martian.Props.C07.Upload
+import Martian.Props.C07.History
 /-!
 C07 — Shutdown completes in-flight exchanges, refuses new ones and closes everything.
 
